@@ -38,6 +38,15 @@ type foreignDomainIngest struct{ model.IngestRequest }
 
 func (f *foreignDomainIngest) Domain() string { return "some-other-domain" }
 
+// the ingest payload sealed for the peer-record domain, and a peer record sealed for the ingest domain
+type ingestInPeerDomain struct{ model.IngestRequest }
+
+func (f *ingestInPeerDomain) Domain() string { return peer.PeerRecordEnvelopeDomain }
+
+type peerRecordInIngestDomain struct{ *peer.PeerRecord }
+
+func (f *peerRecordInIngestDomain) Domain() string { return model.IngestRequestEnvelopeDomain }
+
 // record types with the right domain but another payload type
 type foreignTypeIngest struct{ model.IngestRequest }
 
@@ -159,6 +168,10 @@ func c18Alter(c *vf.Ctx) {
 			{"register", reg, func(b []byte) error { _, e := model.ReadRegisterRequest(b); return e }},
 		}
 		for _, t := range targets {
+			// the genuine request is read first (a server sees it before any replayed or altered copy)
+			if err := t.read(t.data); err != nil {
+				c.Fail(sub, i, "own-"+t.name+"-request-rejected:"+id.Type, err.Error(), nil)
+			}
 			// a flip inside each sealed field, several positions
 			for _, f := range []string{"public_key", "payload_type", "payload", "signature"} {
 				for k := 0; k < 6; k++ {
@@ -236,6 +249,30 @@ func c18Alter(c *vf.Ctx) {
 			b, _ := env.Marshal()
 			if _, err := model.ReadIngestRequest(b); err == nil {
 				c.Fail(sub, i, "foreign-domain-accepted", "", wx())
+			}
+			// each request type sealed for the OTHER request's domain
+			xi := &ingestInPeerDomain{model.IngestRequest{Multihash: q.mh, ProviderID: id.ID, ContextID: q.ctx, Metadata: q.md, Addrs: q.addrs, Seq: 1}}
+			if envx, err := record.Seal(xi, id.Priv); err == nil {
+				bx, _ := envx.Marshal()
+				if _, err := model.ReadIngestRequest(bx); err == nil {
+					c.Fail(sub, i, "other-request-domain-accepted:ingest", "an ingest request sealed for the peer-record domain was accepted", wx())
+				}
+				if _, err := model.ReadRegisterRequest(bx); err == nil {
+					c.Fail(sub, i, "ingest-accepted-as-register", "", wx())
+				}
+			}
+			prx := peer.NewPeerRecord()
+			prx.PeerID = id.ID
+			ax, _ := multiaddr.NewMultiaddr(q.addrs[0])
+			prx.Addrs = []multiaddr.Multiaddr{ax}
+			if envx, err := record.Seal(&peerRecordInIngestDomain{prx}, id.Priv); err == nil {
+				bx, _ := envx.Marshal()
+				if _, err := model.ReadRegisterRequest(bx); err == nil {
+					c.Fail(sub, i, "other-request-domain-accepted:register", "a register request sealed for the ingest domain was accepted", wx())
+				}
+				if _, err := model.ReadIngestRequest(bx); err == nil {
+					c.Fail(sub, i, "register-accepted-as-ingest", "", wx())
+				}
 			}
 			// right domain, right signer, payload that parses as the request, but another payload type
 			ft := &foreignTypeIngest{model.IngestRequest{Multihash: q.mh, ProviderID: id.ID, ContextID: q.ctx, Metadata: q.md, Addrs: q.addrs, Seq: 1}}
